@@ -149,12 +149,12 @@ class Fraction(Factory, Container):
 
     @inheritdoc(Container)
     def __iadd__(self, other):
-        if isinstance(other, Fraction):
-            self.entries += other.entries
-            self.numerator += other.numerator
-            self.denominator += other.denominator
-            return self
-        raise ContainerException(f"cannot add {self.name} and {other.name}")
+        # merge with + first: it raises, leaving both operands untouched, if anything is incompatible
+        both = self + other
+        self.entries = both.entries
+        self.numerator = both.numerator
+        self.denominator = both.denominator
+        return self
 
     @inheritdoc(Container)
     def __mul__(self, factor):
